@@ -24,7 +24,7 @@ class Profile(object):
     def __init__(self, allowed, weights=None, required=(), numeric="grid", max_nodes=3, max_classes=3,
                  plans=("max_time",), horizon=(4.0, 16.0), budget=600, max_c=3, caps=(0, 1, 2, 3),
                  resumptions=(1, 3), load="mixed", excluded=(), seq_len=5, require_any=(), stay=0.0, finite_arrivals=0.0,
-                 router_kinds=None, routing_kinds=None, min_dests=1, long_service=0.0, node_kinds=None):
+                 router_kinds=None, routing_kinds=None, min_dests=1, long_service=0.0, node_kinds=None, tracker_kinds=None):
         self.allowed = set(allowed)
         self.weights = dict(weights or {})
         self.required = set(required)
@@ -48,6 +48,7 @@ class Profile(object):
         self.min_dests = min_dests                  # least number of destinations of a JSQ / LB router
         self.long_service = long_service            # probability that a (grid) service distribution is drawn from the long-duration grid
         self.node_kinds = node_kinds                # fixed server kinds per node position, e.g. ("slotted", "schedule"): a pipeline shape
+        self.tracker_kinds = tracker_kinds          # restrict the state trackers drawn
 
     def w(self, f, default=0.3):
         if f not in self.allowed:
@@ -437,7 +438,7 @@ def netspec(draw, prof):
     if exact:
         spec["exact"] = exact
     if on["tracker"]:
-        spec["tracker"] = tracker(draw, n, names)
+        spec["tracker"] = tracker(draw, n, names, prof.tracker_kinds)
     if on["deadlock"]:
         spec["deadlock"] = True
     spec["seed"] = draw(st.integers(0, 10 ** 6))
@@ -481,9 +482,9 @@ def _baulk(draw):
     return ["const", draw(st.sampled_from([0.0, 0.25, 0.5, 1.0]))]
 
 
-def tracker(draw, n, names):
-    k = draw(st.sampled_from(["SystemPopulation", "NodePopulation", "NodePopulationSubset", "GroupedNodePopulation",
-                              "NodeClassMatrix", "NaiveBlocking", "MatrixBlocking"]))
+def tracker(draw, n, names, kinds=None):
+    k = draw(st.sampled_from(list(kinds) if kinds else ["SystemPopulation", "NodePopulation", "NodePopulationSubset", "GroupedNodePopulation",
+                                                        "NodeClassMatrix", "NaiveBlocking", "MatrixBlocking"]))
     t = {"kind": k}
     if k == "NodePopulationSubset":
         t["nodes"] = draw(st.lists(st.integers(0, n - 1), min_size=1, max_size=n, unique=True))
